@@ -494,17 +494,17 @@ def _check_small_curve(rep, curve, p, b, order):
     rep.stub("prime_field_inv(a, p) -> fresh v with a*v == 1 (mod p), inv0(0) = 0 (contract: C08 prime_field_inv_small)")
 
 
-def _mk_small(curve, idx):
+def _mk_small(curve, p):
     def f(rep, tier):
-        cs = small_curves(23)
-        if idx < len(cs):
-            p, b, n = cs[idx]
-            rep.encoded(mod(REF[curve]).add, mod(REF[curve]).double)
-            _check_small_curve(rep, curve, p, b, n)
+        cs = [c for c in small_curves(23) if c[0] == p]
+        require(rep, len(cs) == 1, "an odd-order curve y^2 = x^3 + b exists over GF(%d)" % p, None, {"kind": "c07_small", "args": {"curve": curve, "p": p, "b": 2}})
+        p_, b, n = cs[0]
+        rep.encoded(mod(REF[curve]).add, mod(REF[curve]).double)
+        _check_small_curve(rep, curve, p_, b, n)
     return f
 
 
-for _i in range(4):
-    obligation("C07", "small_curve_all_triples_%d" % _i, tier="thorough", timeout=1800,
-               bound="every triple of points of an odd-order curve y^2 = x^3 + b over a small prime field (GF(5), GF(7), GF(11), GF(13) in turn; first b of odd order): closure, commutativity, associativity incl. all special positions, doubling, inverse; real reference add/double of bn128_curve on exact 16-bit vectors")(
-        _mk_small("bn128", _i))
+for _p in (7, 13):
+    obligation("C07", "small_curve_all_triples_p%d" % _p, tier="thorough", timeout=3000,
+               bound="every triple of points of the odd-order curve y^2 = x^3 + 2 over GF(%d): closure, commutativity, associativity incl. all special positions (P = Q, P = -Q, intermediate sums meeting), doubling, inverse; real reference add/double/neg of bn128_curve over an FQ subclass, exact 16-bit vectors, inversion by contract" % _p)(
+        _mk_small("bn128", _p))
